@@ -209,6 +209,96 @@ func runC21(c *Ctx) {
 			}
 		}
 		c.Check(len(drainChans) > 0, "rollback-after-drain", ssaFuncKey(hb)+":drain-source", hb.Pos(), "a goroutine reports Pipeline.WaitForDrain on a channel", "no goroutine reports the result of Pipeline.WaitForDrain to the rollback handler")
+		// the drain gets time: the timeout of the context handed to WaitForDrain is positive also when the configured
+		// value is the zero value (a Config built as a literal) — an expired context makes the wait return at once
+		for _, ci := range allCalls(hb) {
+			if calleeName(ci.Common()) != "context.WithTimeout" || len(ci.Common().Args) < 2 {
+				continue
+			}
+			wt, _ := ci.(*ssa.Call)
+			if wt == nil {
+				continue
+			}
+			key := ssaFuncKey(hb) + ":drain-timeout"
+			atom := ""
+			for _, in := range fnInstrs(hb) {
+				if u, ok := in.(*ssa.UnOp); ok && strings.HasSuffix(desc(u), ".config.PipelineDrainTimeout") {
+					atom = desc(u)
+				}
+			}
+			arg := wt.Call.Args[1]
+			val := map[string]int64{}
+			if atom != "" {
+				val[atom] = 0
+			}
+			verdict, why := "ok", ""
+			for _, v := range valuesUnder(hb, arg, val) {
+				for {
+					if cv, isCv := v.(*ssa.Convert); isCv {
+						v = cv.X
+						continue
+					}
+					break
+				}
+				switch x := v.(type) {
+				case *ssa.Const:
+					if x.Value == nil || x.Int64() <= 0 {
+						verdict, why = "bad", "the constant "+desc(x)
+					}
+				case *ssa.Call:
+					if h := samePkgHelper(hb, &x.Call); h != nil {
+						hval := map[string]int64{}
+						for k, kv := range val {
+							hval[k] = kv
+							for i, a := range x.Call.Args {
+								if nk, ok := substToken(k, desc(a), fmt.Sprintf("p%d", i)); ok {
+									hval[nk] = kv
+								}
+							}
+						}
+						rs, okc := constResults(h, 0, hval, 0)
+						if !okc || len(rs) == 0 {
+							verdict, why = "undecided", "the result of "+h.Name()
+						}
+						for r := range rs {
+							if r <= 0 {
+								verdict, why = "bad", fmt.Sprintf("%d from %s", r, h.Name())
+							}
+						}
+						continue
+					}
+					verdict, why = "undecided", desc(x)
+				default:
+					if atom != "" && desc(v) == atom {
+						verdict, why = "bad", "the configured value itself"
+					} else if verdict == "ok" {
+						verdict, why = "undecided", desc(v)
+					}
+				}
+			}
+			if verdict == "bad" && why == "the configured value itself" {
+				// a constructor of the client may normalise the stored configuration (not NewConfig or an option, which a
+				// Config literal bypasses): that shape was not derived for
+				for _, g := range c.pkgFuncs(rel) {
+					if g.Name() == "NewConfig" || strings.HasPrefix(g.Name(), "WithPipelineDrainTimeout") || (g.Parent() != nil && strings.HasPrefix(g.Parent().Name(), "WithPipelineDrainTimeout")) {
+						continue
+					}
+					for _, in := range fnInstrs(g) {
+						if st, ok := in.(*ssa.Store); ok {
+							if fa, ok := st.Addr.(*ssa.FieldAddr); ok && fieldName(fa.X.Type(), fa.Field) == "PipelineDrainTimeout" {
+								verdict, why = "undecided", "the configured value, which "+g.Name()+" may have normalised"
+							}
+						}
+					}
+				}
+			}
+			switch verdict {
+			case "undecided":
+				c.Undecided("%s: cannot tell whether the drain timeout (%s) is positive when the configured value is zero", key, why)
+			default:
+				c.Check(verdict == "ok", "rollback-after-drain", key, wt.Pos(), "the drain context gets a positive timeout also for a zero-valued configuration", "with PipelineDrainTimeout left at its zero value the drain context is created with "+why+": it has expired before WaitForDrain looks at it, so the rollback callback runs while earlier roll-forward blocks are still in the pipeline")
+			}
+		}
 		isDrainSel := func(b *ssa.BasicBlock) bool {
 			sel := selectOfIf(b)
 			if sel == nil || !sel.Blocking {
